@@ -2,6 +2,7 @@ import Uhppote.Model.Api
 import Uhppote.Spec.Api
 import Uhppote.Gen.Messages
 import Uhppote.Props.C18
+import Uhppote.Gen.Source
 /-! # C01 — every request on the wire is exactly the protocol encoding of the call
 
 For each of the 31 `sendto`-based operations (GetDevices, which has no controller argument, is
@@ -116,5 +117,17 @@ theorem C01_one_call (F : CodecFacts) (T : BCD.Tables) (B : HHmmBounds) (layouts
   simp only [call, hacc, hL, hm, Bool.false_eq_true, if_false]
   repeat' split
   all_goals simp
+
+/-- "a function of the current call only": the model of a call has no state to carry
+    (`Client.run = map call`); on the code side the regenerated list of ALL package-level variables
+    of encoding/, types/ and uhppote/ is exactly: the two tag regexes and the reflect.Type table of
+    the codec, the two card-format regexes, the bind-port mutex, the NOTIMEOUT constant-like value
+    and three error values — no cache, pool, counter or buffer that a request could be built from.
+    (Struct fields of the client are covered by the `ops` history phase and the source pins.) -/
+theorem C01_no_package_state : Gen.Source.packageVars = [
+    "encoding/UTO311-L0x/UT0311-L0x.go:var re", "encoding/UTO311-L0x/UT0311-L0x.go:var tBool,tByte,tUint16,…",
+    "encoding/UTO311-L0x/UT0311-L0x.go:var vre", "types/card-format.go:var w26", "types/card-format.go:var wAny",
+    "uhppote/UT0311.go:var NOTIMEOUT", "uhppote/UT0311.go:var guard", "uhppote/errors.go:var ErrIncorrectController",
+    "uhppote/errors.go:var ErrInvalidCard", "uhppote/errors.go:var ErrInvalidListenerAddress"] := by decide
 
 end Uhppote.Props.C01
